@@ -1,6 +1,31 @@
 // ---------------------------------------------------------------------------------------
 // implementation-level oracles (included into cat.rs; no reference to the Lean model)
 
+thread_local! {
+    static FAIL_CLASSES: std::cell::RefCell<BTreeMap<String, u32>> = std::cell::RefCell::new(BTreeMap::new());
+}
+
+/// at most 6 reports per (property, constructor kind, failure class) so that one defect
+/// cannot crowd out the others (the shared `Report` keeps 200 failures in total)
+fn cat_fail(rep: &mut Report, prop: &str, replay: String) {
+    let kind = replay.split(' ').next().unwrap_or("").to_string();
+    let class: String = match replay.rfind("=> ") {
+        Some(i) => replay[i + 3..].chars().filter(|c| !c.is_ascii_digit()).take(28).collect(),
+        None => String::new(),
+    };
+    let key = format!("{}|{}|{}", prop, kind, class);
+    let n = FAIL_CLASSES.with(|m| {
+        let mut m = m.borrow_mut();
+        let e = m.entry(key).or_insert(0);
+        *e += 1;
+        *e
+    });
+    rep.count(&format!("FAILCLASS {} {} {}", prop, kind, class.replace(' ', "_")));
+    if n <= 6 {
+        rep.fail(prop, replay);
+    }
+}
+
 fn describe(b: u32, p: u32, c: &Ctor) -> String {
     match c {
         Ctor::Contig { probs, infer } => format!("cat.contig {:x} {:x} {} {}", b, p, show_list(probs.clone()), *infer as u8),
@@ -94,7 +119,14 @@ fn outside_symbols(rng: &mut Rng, t: &[Triple]) -> Vec<usize> {
 
 /// C03 (+ C09, C20 bookkeeping) on one model against the table `expect` (`None`: the model's own)
 fn check_model(rng: &mut Rng, rep: &mut Report, desc: &str, b: u32, p: u32, m: &dyn DynModel, expect: Option<&[Triple]>, prop: &str) -> Option<Vec<Triple>> {
-    let own = m.table();
+    let own = match guarded(|| m.table()) {
+        Ok(x) => x,
+        Err(class) => {
+            rep.eval(prop);
+            cat_fail(rep, prop, format!("{} | table => {}", desc, class));
+            return None;
+        }
+    };
     let t: Vec<Triple> = match (&own, expect) {
         (Some(t), _) => t.clone(),
         (None, Some(e)) => e.to_vec(),
@@ -103,13 +135,13 @@ fn check_model(rng: &mut Rng, rep: &mut Report, desc: &str, b: u32, p: u32, m: &
     rep.eval(prop);
     rep.eval("C20");
     if let Some(d) = tiling_defect(p, &t) {
-        rep.fail(prop, format!("{} | table => {} ({})", desc, show_table(&t), d));
+        cat_fail(rep, prop, format!("{} | table => {} ({})", desc, show_table(&t), d));
         return Some(t);
     }
     if let (Some(own), Some(e)) = (&own, expect) {
         rep.eval("C05");
         if own[..] != e[..] {
-            rep.fail("C05", format!("{} | table => {} but the source model has {}", desc, show_table(own), show_table(e)));
+            cat_fail(rep, "C05", format!("{} | table => {} but the source model has {}", desc, show_table(own), show_table(e)));
         }
     }
     let distinct = t.iter().map(|e| e.0).collect::<std::collections::HashSet<_>>().len() == t.len();
@@ -120,17 +152,29 @@ fn check_model(rng: &mut Rng, rep: &mut Report, desc: &str, b: u32, p: u32, m: &
                 continue;
             }
             rep.eval(prop);
-            let r = m.enc(e.0).unwrap();
+            let r = match guarded(|| m.enc(e.0).unwrap()) {
+                Ok(r) => r,
+                Err(class) => {
+                    cat_fail(rep, prop, format!("{} | enc {:x} => {}", desc, e.0, class));
+                    break;
+                }
+            };
             if r != Some((e.1, e.2)) {
-                rep.fail(prop, format!("{} | enc {:x} => {:?} but the table says {:x}:{:x}", desc, e.0, r, e.1, e.2));
+                cat_fail(rep, prop, format!("{} | enc {:x} => {:?} but the table says {:x}:{:x}", desc, e.0, r, e.1, e.2));
                 break;
             }
         }
         for s in outside_symbols(rng, &t) {
             rep.eval("C09");
-            let r = m.enc(s).unwrap();
+            let r = match guarded(|| m.enc(s).unwrap()) {
+                Ok(r) => r,
+                Err(class) => {
+                    cat_fail(rep, "C09", format!("{} | enc {:x} => {}", desc, s, class));
+                    break;
+                }
+            };
             if r.is_some() {
-                rep.fail("C09", format!("{} | enc {:x} => {:?} for a symbol outside the support", desc, s, r));
+                cat_fail(rep, "C09", format!("{} | enc {:x} => {:?} for a symbol outside the support", desc, s, r));
                 break;
             }
         }
@@ -139,10 +183,16 @@ fn check_model(rng: &mut Rng, rep: &mut Report, desc: &str, b: u32, p: u32, m: &
     if m.dec(0).is_some() {
         for q in sample_quantiles(rng, p, &t) {
             rep.eval(prop);
-            let r = m.dec(q).unwrap();
+            let r = match guarded(|| m.dec(q).unwrap()) {
+                Ok(r) => r,
+                Err(class) => {
+                    cat_fail(rep, prop, format!("{} | dec {:x} => {}", desc, q, class));
+                    break;
+                }
+            };
             let want = find_entry(&t, q);
             if Some(r) != want {
-                rep.fail(prop, format!("{} | dec {:x} => {} but the table says {:?}", desc, q, show_triple(&r), want.map(|w| show_triple(&w))));
+                cat_fail(rep, prop, format!("{} | dec {:x} => {} but the table says {:?}", desc, q, show_triple(&r), want.map(|w| show_triple(&w))));
                 break;
             }
         }
@@ -152,7 +202,7 @@ fn check_model(rng: &mut Rng, rep: &mut Report, desc: &str, b: u32, p: u32, m: &
         let d = t.iter().map(|e| e.0).collect::<std::collections::HashSet<_>>().len();
         let want = if m.kind() == "ncenc" { d } else { t.len() };
         if n != want {
-            rep.fail("C05", format!("{} | support => {:x} but the table has {:x} entries", desc, n, want));
+            cat_fail(rep, "C05", format!("{} | support => {:x} but the table has {:x} entries", desc, n, want));
         }
     }
     Some(t)
@@ -162,7 +212,15 @@ fn check_model(rng: &mut Rng, rep: &mut Report, desc: &str, b: u32, p: u32, m: &
 fn check_conversions(rng: &mut Rng, rep: &mut Report, desc: &str, b: u32, p: u32, m: &dyn DynModel, t: &[Triple], depth: usize) {
     let distinct = t.iter().map(|e| e.0).collect::<std::collections::HashSet<_>>().len() == t.len();
     for op in ["view", "tolookup", "togenenc", "togendec", "togenlookup", "ascontig", "intocontig", "asnc", "intonc"] {
-        match m.conv(op) {
+        let converted = match guarded(|| m.conv(op)) {
+            Ok(c) => c,
+            Err(class) => {
+                rep.eval("C05");
+                cat_fail(rep, "C05", format!("{} | {} => {}", desc, op, class));
+                continue;
+            }
+        };
+        match converted {
             Conv::Na | Conv::Unsupported => {}
             Conv::Ok(n) => {
                 if op == "togenenc" && !distinct {
@@ -221,7 +279,7 @@ fn oracle_valid(rng: &mut Rng, rep: &mut Report, b: u32, p: u32, kind: &str, pro
             }
             if let Some(t) = t {
                 if t[..] != want[..] {
-                    rep.fail("C03", format!("{} | table => {} expected {}", desc, show_table(&t), show_table(&want)));
+                    cat_fail(rep, "C03", format!("{} | table => {} expected {}", desc, show_table(&t), show_table(&want)));
                 }
                 rep.sample("C03", || desc.clone());
                 if conv_depth > 0 {
@@ -229,9 +287,9 @@ fn oracle_valid(rng: &mut Rng, rep: &mut Report, b: u32, p: u32, kind: &str, pro
                 }
             }
         }
-        Ok(Some(Built::Rejected)) => rep.fail("C19", format!("{} => rejected although the table is valid{}", desc, if infer { " (infer_last_probability)" } else { "" })),
+        Ok(Some(Built::Rejected)) => cat_fail(rep, "C19", format!("{} => rejected although the table is valid{}", desc, if infer { " (infer_last_probability)" } else { "" })),
         Ok(Some(Built::Unsupported)) | Ok(None) => {}
-        Err(class) => rep.fail("C19", format!("{} => {}", desc, class)),
+        Err(class) => cat_fail(rep, "C19", format!("{} => {}", desc, class)),
     }
 }
 
@@ -257,7 +315,7 @@ fn oracle_arbitrary(rng: &mut Rng, rep: &mut Report, b: u32, p: u32, c: &Ctor) {
             match check_model(rng, rep, &desc, b, p, m.as_ref(), expect.as_deref(), "C19") {
                 Some(t) => {
                     if t.len() < 2 {
-                        rep.fail("C19", format!("{} => accepted a model with a single symbol", desc));
+                        cat_fail(rep, "C19", format!("{} => accepted a model with a single symbol", desc));
                     }
                 }
                 None => {}
@@ -284,7 +342,7 @@ fn oracle_uniform(rng: &mut Rng, rep: &mut Report, b: u32, p: u32, range: usize,
                 if let Some(t) = check_model(rng, rep, &desc, b, p, m.as_ref(), None, "C03") {
                     rep.eval("C03");
                     if t.len() != range || t.iter().enumerate().any(|(i, e)| e.0 != i) {
-                        rep.fail("C03", format!("{} | table => support is not 0..range", desc));
+                        cat_fail(rep, "C03", format!("{} | table => support is not 0..range", desc));
                     }
                     if conv && range <= 300 {
                         check_conversions(rng, rep, &desc, b, p, m.as_ref(), &t, 1);
@@ -301,12 +359,12 @@ fn oracle_uniform(rng: &mut Rng, rep: &mut Report, b: u32, p: u32, range: usize,
                     let want_p = if s == range - 1 { total - want_c } else { ppb };
                     let r = m.enc(s).unwrap();
                     if r != Some((want_c, want_p)) {
-                        rep.fail("C03", format!("{} | enc {:x} => {:?} expected {:x}:{:x}", desc, s, r, want_c, want_p));
+                        cat_fail(rep, "C03", format!("{} | enc {:x} => {:?} expected {:x}:{:x}", desc, s, r, want_c, want_p));
                     }
                     for q in [want_c, want_c + want_p - 1] {
                         let d = m.dec(q).unwrap();
                         if d != (s, want_c, want_p) {
-                            rep.fail("C03", format!("{} | dec {:x} => {} expected {:x}:{:x}:{:x}", desc, q, show_triple(&d), s, want_c, want_p));
+                            cat_fail(rep, "C03", format!("{} | dec {:x} => {} expected {:x}:{:x}:{:x}", desc, q, show_triple(&d), s, want_c, want_p));
                         }
                     }
                 }
@@ -326,7 +384,7 @@ fn oracle_uniform(rng: &mut Rng, rep: &mut Report, b: u32, p: u32, range: usize,
                 rep.eval("C09");
                 let r = m.enc(s).unwrap();
                 if r.is_some() {
-                    rep.fail("C09", format!("{} | enc {:x} => {:?} for a symbol outside 0..range", desc, s, r));
+                    cat_fail(rep, "C09", format!("{} | enc {:x} => {:?} for a symbol outside 0..range", desc, s, r));
                     break;
                 }
             }
@@ -334,7 +392,7 @@ fn oracle_uniform(rng: &mut Rng, rep: &mut Report, b: u32, p: u32, range: usize,
         Ok(_) => {}
         Err(_) => {
             if valid {
-                rep.fail("C19", format!("{} => panicked although 2 <= range <= 2^P", desc));
+                cat_fail(rep, "C19", format!("{} => panicked although 2 <= range <= 2^P", desc));
             } else {
                 rep.count("C19.uniform.rejected");
             }
@@ -365,7 +423,7 @@ pub fn oracle(rng: &mut Rng, tier: &str, rep: &mut Report) {
     }
 
     // ---- random larger tables, every compiled (B, P) incl. P == B -----------------------
-    let per_bp = if thorough { 400 } else { 40 };
+    let per_bp = if thorough { 400 } else { 60 };
     for &(b, ps) in BPS {
         for &p in ps {
             for i in 0..per_bp {
@@ -466,20 +524,20 @@ pub fn oracle(rng: &mut Rng, tier: &str, rep: &mut Report) {
                     match guarded(|| build(b, p, &c)) {
                         Ok(Some(Built::Ok(m))) => {
                             if ns != n {
-                                rep.fail("C19", format!("{} => accepted {} symbols for {} weights", desc, ns, n));
+                                cat_fail(rep, "C19", format!("{} => accepted {} symbols for {} weights", desc, ns, n));
                             } else if let Some(t) = check_model(rng, rep, &desc, b, p, m.as_ref(), None, "C19") {
                                 if t.iter().map(|e| e.0).collect::<Vec<_>>() != labels {
-                                    rep.fail("C19", format!("{} | syms => labels differ", desc));
+                                    cat_fail(rep, "C19", format!("{} | syms => labels differ", desc));
                                 }
                             }
                         }
                         Ok(Some(Built::Rejected)) => {
                             if ns == n {
-                                rep.fail("C19", format!("{} => rejected although the counts match", desc));
+                                cat_fail(rep, "C19", format!("{} => rejected although the counts match", desc));
                             }
                         }
                         Ok(_) => {}
-                        Err(class) => rep.fail("C19", format!("{} => {}", desc, class)),
+                        Err(class) => cat_fail(rep, "C19", format!("{} => {}", desc, class)),
                     }
                 }
             }
